@@ -74,6 +74,8 @@ enum Op {
     Patch { c: i64, ts: Option<u64> },
     /// range_query over the scan keys `r<id>`
     Range { lo: u64, hi: u64, limit: usize },
+    /// one sweeper batch (handled by the worker itself: it needs the `Arc`)
+    Sweep,
 }
 
 fn ts_text(ts: &Option<u64>) -> String {
@@ -91,6 +93,7 @@ impl Op {
             Op::IfAbs { v } => format!("ifabs {}", v.text()),
             Op::Patch { c, ts } => format!("patch {} {}", c, ts_text(ts)),
             Op::Range { lo, hi, limit } => format!("range {} {} {}", lo, hi, limit),
+            Op::Sweep => "sweep".into(),
         }
     }
     fn exec(&self, store: &FeoxStore, key: &[u8]) -> String {
@@ -141,6 +144,7 @@ impl Op {
                 Ok(false) => "notSwapped".into(),
                 Err(x) => e(x),
             },
+            Op::Sweep => "sweep-needs-the-worker".into(),
             Op::Range { lo, hi, limit } => match store.range_query(&scan_key(*lo), &scan_key(*hi), *limit) {
                 Ok(rows) => {
                     let ids: Vec<String> = rows.iter().map(|(k, v)| {
@@ -284,7 +288,14 @@ fn worker(id: usize, ctl: Arc<Ctl>, store: Arc<FeoxStore>) {
                 g = ctl.cv.wait(g).unwrap();
             }
         };
-        let r = std::panic::catch_unwind(std::panic::AssertUnwindSafe(|| op.exec(&store, &key))).unwrap_or_else(|_| "panic".into());
+        let r = std::panic::catch_unwind(std::panic::AssertUnwindSafe(|| {
+            if let Op::Sweep = op {
+                let (sampled, expired) = feoxdb::core::ttl_sweep::verif_sweep_batch(&store, 64);
+                format!("swept {} {}", sampled, expired)
+            } else {
+                op.exec(&store, &key)
+            }
+        })).unwrap_or_else(|_| "panic".into());
         let mut g = ctl.slots.lock().unwrap();
         g[id].phase = Phase::Returned(r);
         ctl.cv.notify_all();
@@ -1178,6 +1189,88 @@ fn scanrace_case(rng: &mut Rng, out: &mut Out, dir: &str, idx: u64) {
     let _ = std::fs::remove_file(&path);
 }
 
+/// the TTL sweeper against a concurrent writer: a key expires, the sweeper samples it and is parked
+/// before its guarded removal; the key is then re-written with a fresh expiry / without one /
+/// TTL-updated / persisted / deleted / left alone; the sweeper is let go.  A key whose latest
+/// generation is unexpired must still be there with its value; the expired one must be gone.
+fn sweep_race_case(rng: &mut Rng, out: &mut Out, ctl: &Arc<Ctl>, dir: &str, idx: u64) {
+    let t0 = 1_700_000_000_000_000_000u64 + rng.below(1_000_000_000);
+    feoxdb::verif::clock::pin(t0);
+    let mem = rng.chance(1, 2);
+    let path = format!("{}/sweep{}.feox", dir, idx);
+    let store = {
+        let mut b = FeoxStore::builder().hash_bits(6).enable_ttl(true).no_memory_limit();
+        if !mem { let _ = std::fs::remove_file(&path); b = b.device_path(path.clone()).file_size(64 * BS).enable_caching(rng.chance(1, 2)); }
+        match b.build() { Ok(s) => Arc::new(s), Err(_) => { feoxdb::verif::clock::unpin(); return } }
+    };
+    let key = format!("ttl-{}", idx).into_bytes();
+    let other = format!("keep-{}", idx).into_bytes();
+    let v1 = pattern(0x31, 60);
+    let v2 = pattern(0x32, 70);
+    let _ = store.insert_with_ttl(&key, &v1, 1);
+    let _ = store.insert_with_ttl(&other, &v1, 1000);
+    if !mem && rng.chance(1, 2) { let _ = store.flush(); }
+    feoxdb::verif::clock::pin(t0 + 2_000_000_000 + rng.below(1000));
+    {
+        let mut g = ctl.slots.lock().unwrap();
+        g.clear();
+        g.push(Slot { phase: Phase::Idle, permit: false, cmd: None, exit: false });
+    }
+    let h = { let c = ctl.clone(); let st = store.clone(); std::thread::spawn(move || worker(0, c, st)) };
+    let mut ph = ctl.call(0, Op::Sweep, vec![]);
+    let parked = matches!(ph, Some(Phase::AtPoint("sweep_sampled")));
+    let action = rng.below(6);
+    let what = match action { 0 => "re-written with a fresh TTL", 1 => "re-written without TTL", 2 => "given a new TTL (update_ttl)", 3 => "persisted", 4 => "deleted", _ => "left alone" };
+    out.count(&format!("sweep race: sampled key {}", what));
+    if !parked { out.count("sweep race: sweeper did not sample the key"); }
+    // (update_ttl / persist of an expired key are refused: then the key counts as left alone)
+    let expect: Option<Vec<u8>> = if !parked { None } else { match action {
+        0 => { let _ = store.insert_with_ttl(&key, &v2, 1000); Some(v2.clone()) }
+        1 => { let _ = store.insert(&key, &v2); Some(v2.clone()) }
+        2 => if store.update_ttl(&key, 1000).is_ok() { Some(v1.clone()) } else { None },
+        3 => if store.persist(&key).is_ok() { Some(v1.clone()) } else { None },
+        4 => { let _ = store.delete(&key); None }
+        _ => None,
+    } };
+    let mut guard = 0;
+    while let Some(Phase::AtPoint(_)) = ph { ph = ctl.resume(0); guard += 1; if guard > 64 { break; } }
+    match ph {
+        Some(Phase::Returned(_)) => ctl.consume(0),
+        _ => out.failures.push("C18\tthe sweeper batch did not return after being released\t-".into()),
+    }
+    let got = store.get(&key).ok();
+    let kept = store.get(&other).ok();
+    let in_range = store.range_query(b"ttl-", b"ttl-~", 10).map(|r| r.iter().any(|x| x.0 == key)).unwrap_or(false);
+    let mut bad: Option<String> = None;
+    match (&expect, &got) {
+        (Some(v), Some(g)) if v == g => { if !in_range { bad = Some(format!("the key was {} while the sweeper sat between its sample and its removal; get() finds it but range_query does not", what)); } }
+        (Some(_), other_) => bad = Some(format!("the key was {} while the sweeper sat between its sample and its removal: its latest generation is unexpired, but get() returns {:?}", what, other_.as_ref().map(|x| x.len()))),
+        (None, Some(g)) => bad = Some(format!("the key expired and was {}; after the sweeper batch get() still returns {} bytes", what, g.len())),
+        (None, None) => {}
+    }
+    if kept.as_deref() != Some(&v1[..]) && bad.is_none() {
+        bad = Some("an unexpired neighbour key disappeared during a sweeper batch".into());
+    }
+    if store.len() != store.verif_snapshot().len() && bad.is_none() {
+        bad = Some(format!("after the sweeper batch len() = {} but the index holds {} keys", store.len(), store.verif_snapshot().len()));
+    }
+    if let Some(b) = bad { out.failures.push(format!("C11\tsweeper racing with a writer ({}): {}\t-", if mem { "memory-only" } else { "persistent" }, b)); }
+    {
+        let mut g = ctl.slots.lock().unwrap();
+        g[0].exit = true;
+        g[0].permit = true;
+        ctl.cv.notify_all();
+    }
+    let t9 = Instant::now();
+    while !h.is_finished() && t9.elapsed() < WATCHDOG { std::thread::sleep(Duration::from_millis(1)); }
+    feoxdb::verif::clock::unpin();
+    let st = store.clone();
+    drop(store);
+    let _ = with_watchdog(move || drop(st));
+    let _ = std::fs::remove_file(&path);
+    out.count("sweep race case");
+}
+
 /// one reader parked before / inside its device read while the key is rewritten or deleted,
 /// its old extent retired and the freed blocks reused by other keys
 fn race_case(rng: &mut Rng, out: &mut Out, ctl: &Arc<Ctl>, wl: &Arc<WriteLog>, dir: &str, idx: u64) {
@@ -1410,6 +1503,9 @@ fn main() {
     }
     for i in 0..get("scanrace", 0) {
         scanrace_case(&mut rng, &mut out, &args.out, i);
+    }
+    for i in 0..get("sweeps", 0) {
+        sweep_race_case(&mut rng, &mut out, &ctl, &args.out, i);
     }
     for i in 0..get("contend", 0) {
         contend_case(&mut rng, &mut out, &wl, &args.out, i);
